@@ -390,8 +390,17 @@ func (g *cgGen) yaml(d *cgDoc) string {
 		b.WriteString("          properties:\n")
 		for _, p := range o.Props {
 			b.WriteString("            " + g.key(p.Name) + ":\n")
-			if g.r.Intn(2) == 0 {
+			switch g.r.Intn(6) {
+			case 0, 1:
 				b.WriteString("              display:\n                name: " + strconv.Quote("The "+p.Name) + "\n")
+			case 2: // display data the generator must ignore: descriptions of one and of several lines, an icon
+				b.WriteString("              display:\n                name: " + strconv.Quote("The "+p.Name) + "\n")
+				b.WriteString("                description: " + strconv.Quote("one line // with `marks` */ and a trailing break\n") + "\n")
+			case 3:
+				b.WriteString("              display:\n                description: |\n                  The " + p.Name + " of the object.\n                  Optional\n")
+				b.WriteString("                icon: \"<svg/>\"\n")
+			case 4:
+				b.WriteString("              display:\n                description: |\n                  First sentence of the text.\n                  The second line is a sentence too, with a } brace.\n")
 			}
 			if g.r.Intn(2) == 0 {
 				b.WriteString("              required: " + []string{"true", "false"}[g.r.Intn(2)] + "\n")
